@@ -54,7 +54,9 @@ func c17Pow2() []int {
 
 func c17Endpoint(r *Rand, prev []int) int {
 	probes := c17Probes()
-	switch r.Weighted([]int{5, 2, 2, 3}) {
+	switch r.Weighted([]int{5, 2, 2, 3, 1}) {
+	case 4:
+		return c17Magic[r.Intn(len(c17Magic))] + r.PickInt([]int{-1, 0, 0, 1})
 	case 0:
 		return probes[r.Intn(len(probes))]
 	case 1:
@@ -105,8 +107,11 @@ func (propC17) Gen(r *Rand) *Plan {
 			ops = append(ops, Op{Op: "lookup", I: probes[r.Intn(len(probes))]})
 		}
 	}
-	return &Plan{Scenario: target, Tasks: []TaskPlan{{Ops: ops}}}
+	return &Plan{Scenario: target, Config: map[string]string{"obs": fmt.Sprint(r.ObsStride())}, Tasks: []TaskPlan{{Ops: ops}}}
 }
+
+// c17Magic are characters that text-processing code likes to treat specially.
+var c17Magic = []int{0xFEFF, 0xFFFD, 0xFFFE, 0x200B, 0x00A0, 0x2028, 0x2029, 0x0085, 0x001A, 0x007F, 0x00AD, 0x3000, 0xE000}
 
 // c17ProbesFor are the characters looked up after operation i: the boundary
 // set, the endpoints of the last few registrations with their neighbours, and
@@ -148,6 +153,11 @@ func c17ProbesFor(ops []Op, i int) []int {
 			add(p)
 		}
 	}
+	if i%3 == 0 {
+		for _, p := range c17Magic {
+			add(p)
+		}
+	}
 	return out
 }
 
@@ -186,6 +196,7 @@ func (propC17) Exec(p *Plan, x *Ctx) *Outcome {
 	probes := c17Probes()
 	run := NewRun(0)
 	changes := 0
+	stride := p.Stride()
 
 	body := func() {
 		model := &c17Model{}
@@ -199,7 +210,7 @@ func (propC17) Exec(p *Plan, x *Ctx) *Outcome {
 		case "states":
 			tk = generic.NewGenericTokenizer()
 			tk.ClearCharacterStates()
-			stA, stB = generic.NewGenericWordState(), generic.NewGenericSymbolState()
+			stA, stB = &c17Marker{typ: 101}, &c17Marker{typ: 102}
 		case "wordchars":
 			ws = generic.NewGenericWordState()
 			ws.ClearWordChars()
@@ -272,15 +283,46 @@ func (propC17) Exec(p *Plan, x *Ctx) *Outcome {
 				return refName(mp.Lookup(rune(ch)))
 			case "states":
 				st := tk.GetCharacterState(rune(ch))
+				got := fmt.Sprintf("other(%T)", st)
 				switch {
 				case st == nil:
-					return "none"
+					got = "none"
 				case st == stA:
-					return "A"
+					got = "A"
 				case st == stB:
-					return "B"
+					got = "B"
 				}
-				return fmt.Sprintf("other(%T)", st)
+				// "a tokenizer hands every character of a configured range to the configured state, and disabling
+				// a range really disables it": tokenize the single character (not for NUL..space, which other
+				// options of the tokenizer may treat on their own)
+				if ch > ' ' && (ch < 0xD800 || ch > 0xDFFF) {
+					toks := tk.TokenizeBuffer(string(rune(ch)))
+					via := "none"
+					if len(toks) > 0 && toks[0] != nil {
+						switch toks[0].Type() {
+						case 101:
+							via = "A"
+						case 102:
+							via = "B"
+						case tokenizers.Unknown:
+							via = "none"
+						default:
+							via = fmt.Sprintf("other(type %d)", toks[0].Type())
+						}
+						if toks[0].Type() != tokenizers.Eof && toks[0].Value() != string(rune(ch)) {
+							via = fmt.Sprintf("other(value %q)", toks[0].Value())
+						}
+						if toks[0].Type() == tokenizers.Eof {
+							via = "other(no token for the character)"
+						}
+					} else {
+						via = "other(no token for the character)"
+					}
+					if via != got {
+						return "other(tokenizing gives " + via + ", GetCharacterState " + got + ")"
+					}
+				}
+				return got
 			case "wordchars", "whitespacechars":
 				// one enabled character followed by a character that the model
 				// says nothing about would not isolate ch: read a token from the
@@ -371,6 +413,9 @@ func (propC17) Exec(p *Plan, x *Ctx) *Outcome {
 			}
 			out.ModelStates = append(out.ModelStates, st.Str(target).Sum())
 			out.Event("%s %d %d %s", o.Op, o.I, o.J, o.S)
+			if !Observe(stride, i, len(ops)) {
+				continue // sparse observation: several registrations in a row without any lookup in between
+			}
 			checkAll(i, o.Op)
 			if len(out.Violations) > 0 {
 				return
@@ -420,4 +465,12 @@ func wantKind(s string) string {
 		return "ref"
 	}
 	return s
+}
+
+// c17Marker is a tokenizer state that consumes one character and labels it.
+type c17Marker struct{ typ int }
+
+func (m *c17Marker) NextToken(scanner sio.IScanner, tokenizer tokenizers.ITokenizer) *tokenizers.Token {
+	ch := scanner.Read()
+	return tokenizers.NewToken(m.typ, string(ch), scanner.Line(), scanner.Column())
 }
